@@ -44,6 +44,9 @@ mod kbucket;
 mod protocol;
 mod query;
 mod record;
+#[cfg(libp2p_verif)]
+#[doc(hidden)]
+pub mod verif_kad;
 
 mod proto {
     #![allow(unreachable_pub)]
